@@ -56,6 +56,7 @@ def normalise_program(trees: Dict[str, ast.Module], pkgs: Set[str]) -> None:
     for t in trees.values():
         _iso(t)
     ho.renamed_private_anchors(trees)
+    ho.inline_new_properties(trees)
     ho.fold_private_constants(trees, pkgs)
     for t in trees.values():
         _strip_casts(t)
